@@ -352,10 +352,24 @@ impl VoiceSpec {
                 }
             }
             used.sort();
+            let mut questions: Vec<(String, Vec<String>)> = used.iter().map(|i| pool[*i].clone()).collect();
+            // question names are local to a model: now and then a model numbers its questions `Q0, Q1, …`, so that the same name
+            // stands for different patterns in different models of one voice (seeded change C04i: one question table per voice)
+            if rng.chance(0.35) {
+                for (k, q) in questions.iter_mut().enumerate() {
+                    let new = format!("Q{}", k);
+                    for t in trees.iter_mut() {
+                        for r in t.rows.iter_mut() {
+                            if r.qname == q.0 { r.qname = new.clone(); }
+                        }
+                    }
+                    q.0 = new;
+                }
+            }
             ModelSpec {
                 tag: tag.to_string(),
                 quoted: rng.chance(0.7),
-                questions: used.iter().map(|i| pool[*i].clone()).collect(),
+                questions,
                 trees,
                 pdfs,
             }
